@@ -19,16 +19,17 @@ REQS = {
     "SAB5": U.setup_bytes(0x00, 5, 0x0080 | A2, 0, 0),     # bit 7 of wValue must be ignored: address = low 7 bits
     "SC1": U.setup_bytes(0x00, 9, 1, 0, 0),
     "SC2": U.setup_bytes(0x00, 9, 2, 0, 0),
+    "SC85": U.setup_bytes(0x00, 9, 0x85, 0, 0),            # a configuration value that needs all eight bits
     "GST": U.setup_bytes(0x80, 0, 0, 0, 2),                 # GET_STATUS: a request that must change nothing
 }
 ADDRS = (0, A1, A2)
 
 
 def configs(tier):
-    cs = [dict(gap=1, pace=1, reqs=["SA33", "SC1", "GST"]), dict(gap=3, pace=1, reqs=["SAB5", "SC2", "SA33"]),
+    cs = [dict(gap=1, pace=1, reqs=["SA33", "SC1", "GST"]), dict(gap=3, pace=1, reqs=["SAB5", "SC85", "SA33"]),
           dict(gap=2, pace=8, reqs=["SA33", "SC1"])]
     if tier == "thorough":
-        cs += [dict(gap=1, pace=1, reqs=["SA33", "SAB5", "SC1", "SC2", "GST"]), dict(gap=6, pace=2, reqs=["SAB5", "SC1", "GST"])]
+        cs += [dict(gap=1, pace=1, reqs=["SA33", "SAB5", "SC1", "SC2", "SC85", "GST"]), dict(gap=6, pace=2, reqs=["SAB5", "SC1", "GST"])]
     for c in cs: c["depth"] = 5 if tier == "quick" else 7
     return cs
 
@@ -40,7 +41,7 @@ class AddrSpec(Spec):
     def __init__(self, cfg, tier):
         super().__init__(cfg, tier)
         self.max_depth = cfg["depth"]
-        self.time_budget = 45 if tier == "quick" else 800
+        self.time_budget = 600 if tier == "quick" else 1500   # safety net only
         self.host = Host(gap=cfg["gap"], pace=cfg["pace"], extra=dict(connect=1, valid=1, payload=0xA7))
         self.reqs = cfg["reqs"]
 
